@@ -31,6 +31,14 @@ def gen_programs(rng, tier):
         elif c == 2:
             items.append(("I", rng.choice(["v", "p", "s", "c"]), rng.bytes(rng.range(0, 50)), None))
         progs.append(items)
+    # images with BOTH a visual reference and a projection, every mask combination: each descriptor (data and mask of
+    # each representation) must lead to its own data and a mask must be reported exactly where one was written
+    for proj in "psc":
+        for mv in (False, True):
+            for mp in (False, True):
+                progs.append([("I", "v" + proj, rng.bytes(rng.range(1, 300)), rng.bytes(rng.range(1, 40)) if mv else None,
+                               rng.bytes(rng.range(1, 300)), rng.bytes(rng.range(1, 40)) if mp else None),
+                              ("I", proj, rng.bytes(rng.range(1, 200)), rng.bytes(7) if not mp else None)])
     # several images in one file: each descriptor must lead to its own data
     for _ in range(20 if tier == "quick" else 400):
         items = []
@@ -48,7 +56,7 @@ def run(rep, tier, rng, replay=None):
         return
     if replay and replay.get("kind") == "writer-program":
         progs = [[("B", bytes.fromhex(t[2:])) if t.startswith("B:") else
-                  ("I", t.split(":")[1], bytes.fromhex(t.split(":")[2]), None if t.split(":")[3] == "-" else bytes.fromhex(t.split(":")[3])) if t.startswith("I:") else
+                  tuple(["I", t.split(":")[1]] + [None if x == "-" else bytes.fromhex(x) for x in t.split(":")[2:]]) if t.startswith("I:") else
                   ("P", [tuple(x.split("=", 1)) for x in t.split(":")[1].split(",")],
                    [p.split(",") for p in t.split(":")[2].split(";")] if len(t.split(":")) > 2 and t.split(":")[2] else [])
                   for t in replay["items"]]]
